@@ -10,6 +10,8 @@ import common, gen_types
 from common import hexs, unhexs, Broken
 
 PROOF_MODULES = {"C09": ["Glas.Props.C09UF", "Glas.Props.C09", "Glas.Audit.C09"]}
+# models: Glas/Model/UnionFind.lean (table), Glas/Model/Infer.lean (M-ty: the engine over the core language),
+# Glas/Model/TySpec.lean (Gleam's rules + proved checker)
 
 
 def uf_scripts(rng, n):
@@ -90,6 +92,7 @@ def run_programs(res, rng, nprog, tier):
     res.cov["evaluations"] += len(plan)
     # assignments as displayed
     shown = {}           # k -> (fn types, local types)
+    out_shown = {}       # (k, kind, key) -> True when glas displayed a type
     stats = {"binders": 0, "functions": 0, "not_shown": 0, "equal": 0, "different": 0}
     feats = {}
     for (k, kind, key, name, ty, hov, li) in plan:
@@ -119,6 +122,7 @@ def run_programs(res, rng, nprog, tier):
             (fn_t if kind == "fn" else loc_t)[key] = ty
             continue
         (fn_t if kind == "fn" else loc_t)[key] = got
+        out_shown[(k, kind, key)] = True
         if gen_types.canon_gens(got) == expected:
             stats["equal"] += 1
         else:
@@ -138,9 +142,41 @@ def run_programs(res, rng, nprog, tier):
         reqs.append("tycheck\t" + prog + "\t" + gen_types.assignment_sexp(efn, eloc)); meta.append((k, "expected"))
         sfn, sloc = shown.get(k, ({}, {}))
         reqs.append("tycheck\t" + prog + "\t" + gen_types.assignment_sexp(sfn, sloc)); meta.append((k, "shown"))
-    mo, rc = common.run_lines(common.DRIVER_BIN, reqs)
-    if len(mo) != len(reqs):
-        raise Broken("Lean driver died", "on tycheck requests")
+    # the model of the inference engine on the same programs
+    ireqs = ["tyinfer\t" + g.program_sexp(all_ann=True) + "\t" + gen_types.groups_sexp(g) for (seed, g, texts) in gens]
+    mo_all, rc = common.run_lines(common.DRIVER_BIN, reqs + ireqs)
+    if len(mo_all) != len(reqs) + len(ireqs):
+        raise Broken("Lean driver died", "on tycheck / tyinfer requests")
+    mo, io = mo_all[:len(reqs)], mo_all[len(reqs):]
+    mstats = {"model_valid": 0, "model_invalid": 0, "compared": 0}
+    for k, ((seed, g, texts), out) in enumerate(zip(gens, io)):
+        if not (out.startswith("valid ") or out.startswith("invalid(")):
+            res.disagreements.append((f"tyinfer seed {seed}", "types shown by glas", out[:200]))
+            continue
+        if out.startswith("valid "):
+            mstats["model_valid"] += 1
+        else:
+            mstats["model_invalid"] += 1
+            res.extra.setdefault("model_result_not_validated", []).append({"seed": seed, "result": out[:120]})
+        body = out.split(" ", 1)[1]
+        fpart, lpart = body.split("|loc ")
+        mfn = {x.split("=", 1)[0]: x.split("=", 1)[1] for x in fpart[3:].split(";") if x}
+        mloc = {int(x.split("=", 1)[0]): x.split("=", 1)[1] for x in lpart.split(";") if x}
+        sfn, sloc = shown.get(k, ({}, {}))
+        hover_seen = {(kind, key) for (kk, kind, key, name, ty, hov, li) in plan if kk == k and out_shown.get((k, kind, key))}
+        for (kind, key) in hover_seen:
+            got_m = (mfn if kind == "fn" else mloc).get(key)
+            got_i = (sfn if kind == "fn" else sloc).get(key)
+            if got_i is None:
+                continue
+            mstats["compared"] += 1
+            try:
+                same = got_m is not None and gen_types.canon_gens(gen_types.parse_type(got_m)) == gen_types.canon_gens(got_i)
+            except Exception:
+                same = False
+            if not same:
+                res.disagreements.append((f"seed {seed} {kind} {key}", gen_types.show(got_i), str(got_m)))
+    res.extra["model_stats"] = mstats
     vstats = {"expected_ok": 0, "expected_rejected": 0, "shown_ok": 0, "shown_rejected": 0}
     for (k, which), o in zip(meta, mo):
         seed, g, texts = gens[k]
@@ -203,10 +239,13 @@ def run(prop, res, tier, seed):
     if vstats["expected_rejected"] > 0.5 * max(1, vstats["expected_ok"] + vstats["expected_rejected"]):
         res.add_broken("validation of the oracle (the generator's expected types are not accepted by the proved checker)",
                        json.dumps(res.extra.get("oracle_not_validated", [])[:3]))
+    if res.extra.get("model_stats", {}).get("model_invalid", 0):
+        res.add_broken("validation of the model's result (the proved checker rejects what M-ty infers)",
+                       json.dumps(res.extra.get("model_result_not_validated", [])[:3]))
     if res.disagreements:
         rq, a, b = res.disagreements[0]
-        res.add_broken("correspondence model-vs-implementation (M-uf vs ide::verif_union_find_script)",
-                       f"{len(res.disagreements)} disagreeing scripts; first: {rq} impl={a!r} model={b!r}")
+        res.add_broken("correspondence model-vs-implementation (M-uf vs ide::verif_union_find_script; M-ty vs the types glas displays)",
+                       f"{len(res.disagreements)} disagreements; first: {rq} impl={a!r} model={b!r}")
     res.cov["rule"] = ("union-find scripts (random + deep chains + out-of-range); type-directed programs (1-2 modules, 4-12 generated functions + 7 polymorphic helpers "
                        "+ a recursion group, items in random order): hover on every binder and function; nontrivial = binders/functions whose type is shown")
 
